@@ -42,7 +42,7 @@ func (c *caseT) fails(x int) bool {
 // method dereferences): the stages pass errors on, nothing in them needs the text. log/slog, which StdErr
 // writes to, guards the call itself.
 func (c *caseT) errFor(x int) error {
-	switch mix(x, c.FSeed+9) % 4 {
+	switch mix(x, c.FSeed+9) % 5 {
 	case 0:
 		if mix(x, c.FSeed+10)%2 == 0 {
 			return ctxErr{x, context.DeadlineExceeded}
@@ -50,6 +50,8 @@ func (c *caseT) errFor(x int) error {
 		return ctxErr{x, context.Canceled}
 	case 1:
 		return panicErr(x)
+	case 2:
+		return sliceErr{x, x} // a failure of an uncomparable dynamic type (as validation error lists are): == on two of them panics
 	}
 	return idErr(x)
 }
